@@ -381,6 +381,13 @@ async fn run_timer_case(case: &Val) -> (Val, f64) {
         let g = hx.global.clone();
         hx.session.process_effects(effects, &g).await;
     }
+    // the hold time advertised by the OPEN the prologue queued
+    let adv = hx
+        .session
+        .ctrl_msgs
+        .iter()
+        .find_map(|m| if let bgp::Message::Open(o) = m { Some(o.holdtime.seconds()) } else { None });
+    out.push(Val::L(vec![Val::opt(adv.map(Val::n)).list().first().cloned().unwrap_or(Val::I(-3))]));
     out.push(hx.obs(&Step::Continue));
     for e in l[7].list() {
         let el = e.list();
@@ -409,10 +416,31 @@ async fn run_timer_case(case: &Val) -> (Val, f64) {
                             let mut b = bytes::BytesMut::new();
                             enc.encode_to(&m, &mut b).expect("encode");
                             bytes.extend_from_slice(&b);
-                        } else {
+                        } else if it.at(0).int() == 1 {
                             let dflt = bgp::PeerCodec::new();
                             let codec = hx.peer_codec.as_ref().unwrap_or(&dflt);
                             bytes.extend_from_slice(&loop_update_bytes(codec, hx.lasn));
+                        } else {
+                            // a message the codec rejects: [2, 2, 6, h] an OPEN with hold time h (1 or 2),
+                            // [2, 1, 3, _] a header with an unknown message type
+                            if it.at(1).int() == 2 {
+                                let m = bgp::Message::Open(bgp::Open {
+                                    as_number: 65001,
+                                    router_id: 100,
+                                    holdtime: HoldTime::new(3).unwrap(),
+                                    capability: Vec::new(),
+                                });
+                                let mut b = bytes::BytesMut::new();
+                                enc.encode_to(&m, &mut b).expect("encode");
+                                let mut v = b.to_vec();
+                                v[22] = 0;
+                                v[23] = it.at(3).u8();
+                                bytes.extend_from_slice(&v);
+                            } else {
+                                let mut v = vec![0xffu8; 16];
+                                v.extend_from_slice(&[0, 19, 9]);
+                                bytes.extend_from_slice(&v);
+                            }
                         }
                     }
                     // arrival only matters at the next select: the bytes are put on the
@@ -616,3 +644,8 @@ mod accept_hx {
 // C14 per-peer policy assignments (unit u6)
 #[allow(dead_code)]
 mod c14 { include!(concat!(env!("VERIF_HX_DIR"), "/daemon/event_policy_hx.rs")); }
+
+// C16, an OPEN from the wire through codec, FSM and negotiation
+mod open_hx {
+    include!(concat!(env!("VERIF_HX_DIR"), "/daemon/event_open_hx.rs"));
+}
